@@ -305,10 +305,6 @@ def chk_vec(sig, exp, what):
     return f
 
 
-def chk_skip():
-    return lambda obs: SKIP
-
-
 class Builder:
     """Builds, for one item, the prelude and the list of cases with their expected values."""
 
@@ -527,8 +523,9 @@ class Builder:
         base = [s_at("Q")]
         nt = self.np_nonglobal or tilted(self.item["npar"])
 
-        def facing_case(key, arg, target, nontrivial):
-            api, src = new_expr("OrientedPoint", base + [s_simple("Facing", "facing", arg)], self.QP)
+        def facing_case(key, arg, target, nontrivial, src_arg=None):
+            spec = Spec("Facing(%s)" % arg, "facing %s" % (arg if src_arg is None else src_arg))
+            api, src = new_expr("OrientedPoint", base + [spec], self.QP)
             self.add(
                 "facing:" + key,
                 "facing",
@@ -552,13 +549,11 @@ class Builder:
         # according to the first"
         facing_case(
             "field-relative",
-            "(RelativeTo(%r, FLD))" % self.h1,
+            "RelativeTo(%r, FLD)" % self.h1,
             g.mmul(self.FOM, g.rot_z(self.h1)),
             nt or self.f_tilt,
+            src_arg="(%r relative to FLD)" % self.h1,
         )
-        self.cases[-1].src = new_expr(
-            "OrientedPoint", base + [Spec("", "facing (%r relative to FLD)" % self.h1)], self.QP
-        )[1]
 
         strict = yaw_only(self.item["npar"])
         for away in (False, True):
@@ -1395,7 +1390,7 @@ def check_item(item):
                 judge(b, results, "source", res)
         res["unspecified"] = b.unspecified
         res["skipped"] = b.skipped
-        if item["idx"] % 97 == 0:
+        if item["idx"] % 97 == 0 and route == "api":
             c = b.cases[(item["idx"] // 97 * 13) % len(b.cases)]
             res["sample"] = {"item": item["idx"], "x_parent_deg": item["xpar"], "x_own_deg": item["xown"], "case": c.key, "api": c.api, "source": c.src}
     except HarnessError:
